@@ -8,19 +8,8 @@ Require Import KawinRun.Iterators_gen KawinRun.BridgeA KawinRun.BridgeB.
 Import ListNotations.
 Open Scope R_scope.
 
-Lemma Euler_R_is_doc f h t y : Euler_R f h t y = Euler_doc Rvs f t y h.
-Proof. unfold Euler_R. rewrite euler_gen_is_doc. reflexivity. Qed.
-
 Lemma RK4_R_is_doc f h t y : RK4_R f h t y = RK4_doc Rvs f t y h.
 Proof. unfold RK4_R. rewrite rk4_gen_is_doc. reflexivity. Qed.
-
-Lemma euler_gen_local_error (f : R -> R -> R) (Y : R -> R) t h M :
-  0 < h ->
-  (forall s, t <= s <= t + h -> is_derive Y s (f s (Y s))) ->
-  (forall s, t <= s <= t + h -> ex_derive_n Y 2 s) ->
-  (forall s, t <= s <= t + h -> Rabs (Derive_n Y 2 s) <= M) ->
-  Rabs (Y (t + h) - Euler_R f h t (Y t)) <= M / 2 * h ^ 2.
-Proof. intros. rewrite Euler_R_is_doc. apply euler_local_error_bound; assumption. Qed.
 
 Lemma rk4_gen_quadrature_local_error (g Y : R -> R) t h M :
   (forall s, is_derive Y s (g s)) ->
@@ -40,3 +29,14 @@ Lemma lf_gen_solution_derivs (l a0 a1 a2 a3 : R) (Y : R -> R) t :
   (forall s, is_derive Y s (l * Y s + lf_g a0 a1 a2 a3 s)) ->
   [Derive_n Y 1 t; Derive_n Y 2 t; Derive_n Y 3 t; Derive_n Y 4 t] = lf_derivs l a0 a1 a2 a3 t (Y t).
 Proof. intros. apply lf_solution_derivs; assumption. Qed.
+
+Lemma rk4_gen_ty_local_error (c : R) (Y : R -> R) t h :
+  (forall s, is_derive Y s (c * s * Y s)) ->
+  0 < h -> exists z, t < z < t + h /\
+    Y (t + h) - RK4_R (fun s y => c * s * y) h t (Y t) = h ^ 5 * (Derive_n Y 5 z / 120 - ty_defect c t (Y t) h).
+Proof. intros. rewrite RK4_R_is_doc. apply rk4_ty_local_error; assumption. Qed.
+
+Lemma ty_gen_solution_derivs (c : R) (Y : R -> R) t :
+  (forall s, is_derive Y s (c * s * Y s)) ->
+  [Derive_n Y 1 t; Derive_n Y 2 t; Derive_n Y 3 t; Derive_n Y 4 t] = ty_derivs c t (Y t).
+Proof. intros. apply ty_solution_derivs; assumption. Qed.
